@@ -10,51 +10,206 @@ import (
 	"go/constant"
 	"go/parser"
 	"go/token"
+	"os"
 	"path/filepath"
+	"strings"
 )
 
-// SourceIntConst evaluates the integer constant `name` declared at package level in `file`.
+// SourceIntConst evaluates the package-level integer constant `name` of the package that `file`
+// belongs to.  The constant may be declared in any (non-test) file of that directory - a move to
+// another file of the package is not a change - and may be any constant integer expression over
+// literals and other constants of the package (+ - * / % << >> & | ^, parentheses, a conversion to
+// an integer type).
 func SourceIntConst(file, name string) (int, error) {
-	fset := token.NewFileSet()
-	f, err := parser.ParseFile(fset, file, nil, 0)
+	dir := filepath.Dir(file)
+	_, defs, eval, err := packageConsts(dir)
 	if err != nil {
 		return 0, err
 	}
-	for _, d := range f.Decls {
-		gd, ok := d.(*ast.GenDecl)
-		if !ok || gd.Tok != token.CONST {
+	if _, ok := defs[name]; !ok {
+		return 0, fmt.Errorf("%s: constant %s not found", dir, name)
+	}
+	v, ok := eval(defs[name], 0)
+	if !ok || v.Kind() != constant.Int {
+		return 0, fmt.Errorf("%s: constant %s is not a constant integer expression", dir, name)
+	}
+	n, ok := constant.Int64Val(v)
+	if !ok || n != int64(int(n)) {
+		return 0, fmt.Errorf("%s: constant %s out of range", dir, name)
+	}
+	return int(n), nil
+}
+
+// packageConsts parses the (non-test) files of a package directory and returns them, its
+// package-level constant declarations and an evaluator of constant integer expressions.
+func packageConsts(dir string) ([]*ast.File, map[string]ast.Expr, func(ast.Expr, int) (constant.Value, bool), error) {
+	ents, err := os.ReadDir(dir)
+	if err != nil {
+		return nil, nil, nil, err
+	}
+	fset := token.NewFileSet()
+	defs := map[string]ast.Expr{}
+	var files []*ast.File
+	for _, e := range ents {
+		n := e.Name()
+		if e.IsDir() || !strings.HasSuffix(n, ".go") || strings.HasSuffix(n, "_test.go") {
 			continue
 		}
-		for _, s := range gd.Specs {
-			vs := s.(*ast.ValueSpec)
-			for i, n := range vs.Names {
-				if n.Name != name || i >= len(vs.Values) {
-					continue
+		f, err := parser.ParseFile(fset, filepath.Join(dir, n), nil, 0)
+		if err != nil {
+			return nil, nil, nil, err
+		}
+		files = append(files, f)
+		for _, d := range f.Decls {
+			gd, ok := d.(*ast.GenDecl)
+			if !ok || gd.Tok != token.CONST {
+				continue
+			}
+			for _, s := range gd.Specs {
+				vs := s.(*ast.ValueSpec)
+				for i, id := range vs.Names {
+					if i < len(vs.Values) {
+						defs[id.Name] = vs.Values[i]
+					}
 				}
-				lit, ok := vs.Values[i].(*ast.BasicLit)
-				if !ok || lit.Kind != token.INT {
-					return 0, fmt.Errorf("%s: constant %s is not an integer literal", file, name)
-				}
-				v, ok := constant.Int64Val(constant.MakeFromLiteral(lit.Value, token.INT, 0))
-				if !ok {
-					return 0, fmt.Errorf("%s: constant %s out of range", file, name)
-				}
-				return int(v), nil
 			}
 		}
 	}
-	return 0, fmt.Errorf("%s: constant %s not found", file, name)
+	intTypes := map[string]bool{"int": true, "int32": true, "int64": true, "uint": true, "uint32": true, "uint64": true}
+	var eval func(e ast.Expr, depth int) (constant.Value, bool)
+	eval = func(e ast.Expr, depth int) (constant.Value, bool) {
+		if depth > 16 {
+			return nil, false
+		}
+		switch x := e.(type) {
+		case *ast.BasicLit:
+			if x.Kind == token.INT {
+				return constant.MakeFromLiteral(x.Value, token.INT, 0), true
+			}
+		case *ast.ParenExpr:
+			return eval(x.X, depth+1)
+		case *ast.Ident:
+			if d, ok := defs[x.Name]; ok {
+				return eval(d, depth+1)
+			}
+		case *ast.UnaryExpr:
+			if v, ok := eval(x.X, depth+1); ok && (x.Op == token.SUB || x.Op == token.ADD || x.Op == token.XOR) {
+				return constant.UnaryOp(x.Op, v, 0), true
+			}
+		case *ast.BinaryExpr:
+			a, ok1 := eval(x.X, depth+1)
+			b, ok2 := eval(x.Y, depth+1)
+			if !ok1 || !ok2 {
+				return nil, false
+			}
+			switch x.Op {
+			case token.ADD, token.SUB, token.MUL, token.REM, token.AND, token.OR, token.XOR:
+				if x.Op == token.REM && constant.Sign(b) == 0 {
+					return nil, false
+				}
+				return constant.BinaryOp(a, x.Op, b), true
+			case token.QUO:
+				if constant.Sign(b) != 0 {
+					return constant.BinaryOp(a, token.QUO_ASSIGN, b), true // integer division
+				}
+			case token.SHL, token.SHR:
+				if n, ok := constant.Uint64Val(b); ok && n < 63 {
+					return constant.Shift(a, x.Op, uint(n)), true
+				}
+			}
+		case *ast.CallExpr:
+			if id, ok := x.Fun.(*ast.Ident); ok && intTypes[id.Name] && len(x.Args) == 1 {
+				return eval(x.Args[0], depth+1)
+			}
+		}
+		return nil, false
+	}
+	return files, defs, eval, nil
+}
+
+// writeThreshold finds the buffering threshold of `typ` from its USE: the constant the method
+// Write of typ compares the length of a field with before it sends (`len(a.f) >= N`, `N <= len(a.f)`,
+// `len(a.f) > N-1`, the negated tests `<` / `<=` of an early return).  Used when the constant is
+// no longer called tBufferSize / lBufferSize (a rename is not a change of behaviour).
+func writeThreshold(dir, typ string) (int, error) {
+	files, _, eval, err := packageConsts(dir)
+	if err != nil {
+		return 0, err
+	}
+	isLen := func(e ast.Expr) bool {
+		c, ok := e.(*ast.CallExpr)
+		if !ok || len(c.Args) != 1 {
+			return false
+		}
+		id, ok := c.Fun.(*ast.Ident)
+		_, sel := c.Args[0].(*ast.SelectorExpr)
+		return ok && id.Name == "len" && sel
+	}
+	var found []int
+	for _, f := range files {
+		for _, d := range f.Decls {
+			fd, ok := d.(*ast.FuncDecl)
+			if !ok || fd.Name.Name != "Write" || fd.Recv == nil || len(fd.Recv.List) != 1 || fd.Body == nil {
+				continue
+			}
+			t := fd.Recv.List[0].Type
+			if st, ok := t.(*ast.StarExpr); ok {
+				t = st.X
+			}
+			if id, ok := t.(*ast.Ident); !ok || id.Name != typ {
+				continue
+			}
+			ast.Inspect(fd.Body, func(n ast.Node) bool {
+				be, ok := n.(*ast.BinaryExpr)
+				if !ok {
+					return true
+				}
+				x, y, op := be.X, be.Y, be.Op
+				if isLen(y) {
+					x, y = y, x
+					op = map[token.Token]token.Token{token.LSS: token.GTR, token.GTR: token.LSS, token.LEQ: token.GEQ, token.GEQ: token.LEQ}[op]
+				}
+				if !isLen(x) {
+					return true
+				}
+				v, ok := eval(y, 0)
+				if !ok || v.Kind() != constant.Int {
+					return true
+				}
+				k, ok := constant.Int64Val(v)
+				if !ok || k < 0 || k > 1<<20 {
+					return true
+				}
+				switch op {
+				case token.GEQ, token.LSS: // send when len >= k  /  return early when len < k
+					found = append(found, int(k))
+				case token.GTR, token.LEQ:
+					found = append(found, int(k)+1)
+				}
+				return true
+			})
+		}
+	}
+	if len(found) != 1 {
+		return 0, fmt.Errorf("%s: %s.Write compares the buffer length with %v: no unique threshold", dir, typ, found)
+	}
+	return found[0], nil
 }
 
 // BufferConsts returns (tBufferSize, lBufferSize) of the source tree at repo.
 func BufferConsts(repo string) (int, int, error) {
 	t, err := SourceIntConst(filepath.Join(repo, "sdf", "triangle3.go"), "tBufferSize")
 	if err != nil {
-		return 0, 0, err
+		// renamed or written as a literal: take it from its use in Triangle3Buffer.Write
+		if t, err = writeThreshold(filepath.Join(repo, "sdf"), "Triangle3Buffer"); err != nil {
+			return 0, 0, err
+		}
 	}
 	l, err := SourceIntConst(filepath.Join(repo, "sdf", "line.go"), "lBufferSize")
 	if err != nil {
-		return 0, 0, err
+		if l, err = writeThreshold(filepath.Join(repo, "sdf"), "Line2Buffer"); err != nil {
+			return 0, 0, err
+		}
 	}
 	return t, l, nil
 }
